@@ -559,6 +559,8 @@ func (t *fedTransport) RoundTrip(req *http.Request) (*http.Response, error) {
 			resp = "<html>bad gateway</html>"
 		case "errorsOnly":
 			resp = `{"errors":[{"message":"subgraph failed"}]}`
+		case "status503DataNull":
+			status, resp = 503, `{"data":null}`
 		case "errorsWithLocation":
 			// servers report unknown positions as -1 (graphql-java) or 0
 			resp = `{"errors":[{"message":"subgraph failed","locations":[{"line":-1,"column":-1}],"path":["_entities",0]}],"data":null}`
